@@ -1002,10 +1002,6 @@ theorem Req.paths_under (root : Path) (hr : RootOK root) (req : Req) : ∀ q ∈
   | uploadFile pf n r => exact okPaths_under root hr pf n
   | downloadFolder pf n => exact okPaths_under root hr pf n
 
-theorem stat_root_of_lookup {fs : FS} {root : Path} (h : (statOk fs root).isSome) : lookup fs root ≠ none := by
-  intro e
-  simp [statOk, stat, statFuel, e] at h
-
 /-- `HandleUploadFile`: the `.incomplete` sibling is only looked at when the target does not exist,
     hence never for the root itself (which exists). -/
 theorem uploadFilePaths_under (root : Path) (hr : RootOK root) (fs : FS) (hex : (statOk fs root).isSome)
@@ -1386,13 +1382,13 @@ theorem withTarget_listed (root : Path) (fs : FS) (pf : Option Bytes) (d : Path)
 
 -- ---------------------------------------------------------------- the three views of a regular file
 
-theorem stat_file (fs : FS) (p : Path) (b : Bytes) (h : lookup fs p = some (.file b)) :
+theorem stat_file (fs : FS) (p : Path) (b : Bytes) (h : lookup fs p = some (.file b)) (hp : firstSpecial fs p = none) :
     stat statFuel fs p = .ok (p, .file b) := by
-  simp [statFuel, stat, h]
+  simp [statFuel, stat, h, hp]
 
-theorem statOk_file (fs : FS) (p : Path) (b : Bytes) (h : lookup fs p = some (.file b)) :
+theorem statOk_file (fs : FS) (p : Path) (b : Bytes) (h : lookup fs p = some (.file b)) (hp : firstSpecial fs p = none) :
     statOk fs p = some (.file b) := by
-  simp [statOk, stat_file fs p b h]
+  simp [statOk, stat_file fs p b h hp]
 
 /-- C11 agreement clause: for a regular file without resource fork the size in the list, in
     get-info and in the download reply equal the number of bytes on disk (as uint32), and the type
@@ -1400,7 +1396,7 @@ theorem statOk_file (fs : FS) (p : Path) (b : Bytes) (h : lookup fs p = some (.f
 theorem views_agree (root : Path) (ig : Bytes → Bool) (fs : FS) (pf : Option Bytes) (name : Bytes) (d : Path) (n : Comp)
     (b : Bytes) (f : Ffo)
     (ht : target root pf name = .ok (d ++ [n])) (hnr : isRoot root (d ++ [n]) = false)
-    (hfile : lookup fs (d ++ [n]) = some (.file b))
+    (hfile : lookup fs (d ++ [n]) = some (.file b)) (hplain : firstSpecial fs (d ++ [n]) = none)
     (hrsrc : statOk fs (wrapper (d ++ [n])).rsrc = none)
     (hffo : ffo fs (d ++ [n]) = .ok f) (en : Bytes) (hen : encStr (wrapper (d ++ [n])).name = some en) :
     let ty := f.fork.ty.take 4
@@ -1412,11 +1408,11 @@ theorem views_agree (root : Path) (ig : Bytes → Bool) (fs : FS) (pf : Option B
   have hts : totalSize fs (d ++ [n]) = b.length % 4294967296 := by
     unfold totalSize rsrcSize
     have : (wrapper (d ++ [n])).data = d ++ [n] := rfl
-    simp [this, statOk_file fs _ b hfile, hrsrc, Node.size]
+    simp [this, statOk_file fs _ b hfile hplain, hrsrc, Node.size]
   have hds : f.dataSize = b.length := by
     unfold ffo at hffo
     have : (wrapper (d ++ [n])).data = d ++ [n] := rfl
-    simp only [this, stat_file fs _ b hfile] at hffo
+    simp only [this, stat_file fs _ b hfile hplain] at hffo
     split at hffo
     · split at hffo
       · injection hffo with hffo; rw [← hffo]; rfl
@@ -1436,13 +1432,6 @@ theorem views_agree (root : Path) (ig : Bytes → Bool) (fs : FS) (pf : Option B
     exact ⟨_, rfl⟩
 
 -- ---------------------------------------------------------------- mutating requests: reference semantics
-
-theorem stat_exists_not_missing (fs : FS) (t : Path) (n : Node) (h : lookup fs t = some n) (hl : ∀ x, n ≠ .link x) :
-    stat statFuel fs t = .ok (t, n) := by
-  cases n with
-  | file b => simp [statFuel, stat, h]
-  | dir => simp [statFuel, stat, h]
-  | link x => exact absurd rfl (hl x)
 
 /-- Create-folder never replaces an existing entry: if anything is bound at the target (file,
     folder or alias — dangling or not), the namespace is unchanged and the reply is an error. -/
@@ -1753,52 +1742,64 @@ theorem erase_ne (fs : FS) (b : Path) : ∀ e ∈ erase fs b, e.1 ≠ b := by
 /-- `os.Rename(a, b)` that succeeded (a ≠ b, neither an ancestor of the other): the node that was at
     `a` is now at `b`, nothing is bound at `a`, and paths outside both are untouched. -/
 theorem rename_ok_spec (fs fs' : FS) (a b : Path) (h : FS.rename fs a b = (.ok, fs')) (hab : a ≠ b) (hba : ¬ b <+: a) :
-    lookup fs' b = lookup fs a ∧ lookup fs' a = none ∧ lookup fs a ≠ none ∧
+    lookup fs' b = lookup fs a ∧ lookup fs' a = none ∧ lookup fs a ≠ none ∧ parentErr fs a = .ok ∧ parentErr fs b = .ok ∧
     (∀ x, ¬ a <+: x → ¬ b <+: x → lookup fs' x = lookup fs x) := by
   have hfr := rename_frame fs a b
   rw [h] at hfr
   unfold FS.rename at h
   split at h
-  · injection h with h _; unfold missingErr at h; split at h <;> cases h
-  · injection h with h _; cases h
-  · injection h with h _; unfold missingErr at h; split at h <;> cases h
-  · rename_i na hla _
-    rw [if_neg hab] at h
-    split at h
-    · split at h
-      · injection h with h _; cases h
-      · split at h
+  · split at h
+    · injection h with h _; unfold missingErr at h; split at h <;> cases h
+    · injection h with h _; cases h
+  · split at h
+    · rename_i hpa
+      split at h
+      · rename_i hpb
+        split at h
         · injection h with h _; cases h
-        · injection h with _ h
-          subst h
-          refine ⟨?_, ?_, ?_, fun x hx1 hx2 => hfr x hx1 hx2⟩
-          · rw [lookup_rekey_dst _ a b (erase_ne fs b), lookup_erase fs b a (Ne.symm hab)]
-          · exact lookup_rekey_src _ a b hba
-          · rw [hla]; simp
+        · rename_i na hla
+          rw [if_neg hab] at h
+          split at h
+          · injection h with h _; cases h
+          · split at h
+            · injection h with h _; cases h
+            · injection h with _ h
+              subst h
+              refine ⟨?_, ?_, ?_, hpa, hpb, fun x hx1 hx2 => hfr x hx1 hx2⟩
+              · rw [lookup_rekey_dst _ a b (erase_ne fs b), lookup_erase fs b a (Ne.symm hab)]
+              · exact lookup_rekey_src _ a b hba
+              · rw [hla]; simp
+      · rename_i e he
+        injection h with h _ <;> exact absurd h he
     · rename_i e he
-      injection h with h _
-      exact absurd h he
+      injection h with h _ <;> exact absurd h he
 
 /-- `os.Rename(a, b)` that failed: the namespace is unchanged; "not found" means the old name is
-    not bound, or the new name's folder does not exist. -/
+    not bound, or one of the two parent folders does not resolve. -/
 theorem rename_err_spec (fs fs' : FS) (a b : Path) (e : Err) (h : FS.rename fs a b = (e, fs')) (he : e ≠ .ok) :
-    fs' = fs ∧ (e = .notExist → lookup fs a = none ∨ parentErr fs b ≠ .ok) := by
+    fs' = fs ∧ (e = .notExist → lookup fs a = none ∨ parentErr fs b ≠ .ok ∨ parentErr fs a ≠ .ok) := by
   unfold FS.rename at h
   split at h
-  · rename_i hla; injection h with _ h2; exact ⟨h2.symm, fun _ => Or.inl hla⟩
-  · injection h with h1 h2; exact ⟨h2.symm, fun e' => by rw [← h1] at e'; cases e'⟩
-  · rename_i hla _; injection h with _ h2; exact ⟨h2.symm, fun _ => Or.inl hla⟩
   · split at h
-    · injection h with h1 _; exact absurd h1.symm he
+    · rename_i hla; injection h with _ h2; exact ⟨h2.symm, fun _ => Or.inl hla⟩
+    · injection h with h1 h2; exact ⟨h2.symm, fun e' => by rw [← h1] at e'; cases e'⟩
+  · split at h
     · split at h
       · split at h
-        · injection h with h1 h2; exact ⟨h2.symm, fun e' => by rw [← h1] at e'; cases e'⟩
+        · rename_i hla; injection h with _ h2; exact ⟨h2.symm, fun _ => Or.inl hla⟩
         · split at h
-          · injection h with h1 h2; exact ⟨h2.symm, fun e' => by rw [← h1] at e'; cases e'⟩
           · injection h with h1 _; exact absurd h1.symm he
+          · split at h
+            · injection h with h1 h2; exact ⟨h2.symm, fun e' => by rw [← h1] at e'; cases e'⟩
+            · split at h
+              · injection h with h1 h2; exact ⟨h2.symm, fun e' => by rw [← h1] at e'; cases e'⟩
+              · injection h with h1 _; exact absurd h1.symm he
       · rename_i e0 he0
         injection h with _ h2
-        exact ⟨h2.symm, fun _ => Or.inr he0⟩
+        exact ⟨h2.symm, fun _ => Or.inr (Or.inl he0)⟩
+    · rename_i e0 he0
+      injection h with _ h2
+      exact ⟨h2.symm, fun _ => Or.inr (Or.inr he0)⟩
 
 theorem parentErr_concat (fs : FS) (d : Path) (x : Comp) :
     parentErr fs (d ++ [x]) = .ok ↔ lookup fs d = some .dir := by
@@ -1812,23 +1813,10 @@ theorem parentErr_concat (fs : FS) (d : Path) (x : Comp) :
     | none => simp [missingErr]; split <;> simp
     | some n => cases n <;> simp
 
-theorem rename_parent_ok (fs fs' : FS) (a b : Path) (h : FS.rename fs a b = (.ok, fs')) (hab : a ≠ b) :
-    parentErr fs b = .ok := by
-  unfold FS.rename at h
-  split at h
-  · injection h with h _; unfold missingErr at h; split at h <;> cases h
-  · injection h with h _; cases h
-  · injection h with h _; unfold missingErr at h; split at h <;> cases h
-  · rw [if_neg hab] at h
-    split at h
-    · assumption
-    · rename_i e he
-      injection h with h _ <;> exact absurd h he
-
-/-- One tolerant step of `fileWrapper.Move`: the rename succeeded or reported "not found" while the
-    destination folder exists and the destination name is free. -/
+/-- One tolerant step of `fileWrapper.Move`: the rename succeeded or reported "not found" while both
+    folders exist and the destination name is free. -/
 theorem rename_tol_spec (fs : FS) (a b : Path) (hab : a ≠ b) (hba : ¬ b <+: a)
-    (hfree : lookup fs b = none) (hpar : parentErr fs b = .ok)
+    (hfree : lookup fs b = none) (hpar : parentErr fs b = .ok) (hpara : parentErr fs a = .ok)
     (h : (FS.rename fs a b).1 = .ok ∨ (FS.rename fs a b).1 = .notExist) :
     lookup (FS.rename fs a b).2 b = lookup fs a ∧ lookup (FS.rename fs a b).2 a = none ∧
     (∀ x, ¬ a <+: x → ¬ b <+: x → lookup (FS.rename fs a b).2 x = lookup fs x) := by
@@ -1837,14 +1825,15 @@ theorem rename_tol_spec (fs : FS) (a b : Path) (hab : a ≠ b) (hba : ¬ b <+: a
     rw [hr] at h
     rcases h with h | h
     · simp only at h; subst h
-      obtain ⟨h1, h2, _, h4⟩ := rename_ok_spec fs fs1 a b hr hab hba
+      obtain ⟨h1, h2, _, _, _, h4⟩ := rename_ok_spec fs fs1 a b hr hab hba
       exact ⟨h1, h2, h4⟩
     · simp only at h; subst h
       obtain ⟨h1, h2⟩ := rename_err_spec fs fs1 a b .notExist hr (by decide)
       subst h1
-      rcases h2 rfl with h3 | h3
+      rcases h2 rfl with h3 | h3 | h3
       · exact ⟨by rw [hfree, h3], h3, fun _ _ _ => rfl⟩
       · exact absurd hpar h3
+      · exact absurd hpara h3
 
 theorem prefix_concat_cases {a d : Path} {x : Comp} (h : a <+: d ++ [x]) : a = d ++ [x] ∨ a <+: d := by
   obtain ⟨r, hr⟩ := h
@@ -1981,8 +1970,22 @@ theorem move_carries (fs fs' : FS) (t d : Path) (nm : Comp) (ht : t ≠ [])
   -- step 1
   generalize hfs1 : (FS.rename fs t b1).2 = fs1 at *
   have e1 : FS.rename fs t b1 = (.ok, fs1) := Prod.ext c1' hfs1
-  obtain ⟨s1b, s1a, s1e, F1⟩ := rename_ok_spec fs fs1 t b1 e1 (sd t (by simp) b1 (by simp)).1 (sd t (by simp) b1 (by simp)).2.2
-  have hpar := rename_parent_ok fs fs1 t b1 e1 (sd t (by simp) b1 (by simp)).1
+  obtain ⟨s1b, s1a, s1e, hpara, hpar, F1⟩ := rename_ok_spec fs fs1 t b1 e1 (sd t (by simp) b1 (by simp)).1 (sd t (by simp) b1 (by simp)).2.2
+  -- the source folder is a directory throughout as well
+  have hpdir : lookup fs t.dropLast = some .dir := by
+    obtain ⟨y, hy⟩ := srcShape t (by simp)
+    rw [hy] at hpara; exact (parentErr_concat fs t.dropLast y).mp hpara
+  have ap : ∀ a ∈ [t, a2, a3, a4], ¬ a <+: t.dropLast := by
+    intro a ha h
+    obtain ⟨y, hy⟩ := srcShape a ha
+    rw [hy] at h
+    exact not_concat_prefix _ y h
+  have bp : ∀ b ∈ [b1, b2, b3, b4], ¬ b <+: t.dropLast := h_da
+  have para : ∀ (g : FS) (a : Path), a ∈ [t, a2, a3, a4] → lookup g t.dropLast = some .dir → parentErr g a = .ok := by
+    intro g a ha hg
+    obtain ⟨y, hy⟩ := srcShape a ha
+    rw [hy]; exact (parentErr_concat g t.dropLast y).mpr hg
+  have hp1 : lookup fs1 t.dropLast = some .dir := by rw [F1 _ (ap t (by simp)) (bp b1 (by simp))]; exact hpdir
   have hddir : lookup fs d = some .dir := by
     obtain ⟨z, hz⟩ := dstShape b1 (by simp)
     rw [hz] at hpar; exact (parentErr_concat fs d z).mp hpar
@@ -1991,18 +1994,20 @@ theorem move_carries (fs fs' : FS) (t d : Path) (nm : Comp) (ht : t ≠ [])
   have f2 : lookup fs1 b2 = none := by
     rw [F1 b2 (sd t (by simp) b2 (by simp)).2.1 (ss hlb2.symm (Ne.symm b21))]; exact fr2
   obtain ⟨s2b, s2a, F2⟩ := rename_tol_spec fs1 a2 b2 (sd a2 (by simp) b2 (by simp)).1 (sd a2 (by simp) b2 (by simp)).2.2 f2
-    (par fs1 b2 (by simp) hd1) (c2.imp id (·.2))
+    (par fs1 b2 (by simp) hd1) (para fs1 a2 (by simp) hp1) (c2.imp id (·.2))
   generalize hfs2 : (FS.rename fs1 a2 b2).2 = fs2 at *
   have hd2 : lookup fs2 d = some .dir := by rw [F2 d (ad a2 (by simp)) (bd b2 (by simp))]; exact hd1
+  have hp2 : lookup fs2 t.dropLast = some .dir := by rw [F2 _ (ap a2 (by simp)) (bp b2 (by simp))]; exact hp1
   -- step 3
   have f3 : lookup fs2 b3 = none := by
     rw [F2 b3 (sd a2 (by simp) b3 (by simp)).2.1 (ss (hlb2.trans hlb3.symm) b23),
       F1 b3 (sd t (by simp) b3 (by simp)).2.1 (ss hlb3.symm (Ne.symm b31))]
     exact fr3
   obtain ⟨s3b, s3a, F3⟩ := rename_tol_spec fs2 a3 b3 (sd a3 (by simp) b3 (by simp)).1 (sd a3 (by simp) b3 (by simp)).2.2 f3
-    (par fs2 b3 (by simp) hd2) (c3.imp id (·.2))
+    (par fs2 b3 (by simp) hd2) (para fs2 a3 (by simp) hp2) (c3.imp id (·.2))
   generalize hfs3 : (FS.rename fs2 a3 b3).2 = fs3 at *
   have hd3 : lookup fs3 d = some .dir := by rw [F3 d (ad a3 (by simp)) (bd b3 (by simp))]; exact hd2
+  have hp3 : lookup fs3 t.dropLast = some .dir := by rw [F3 _ (ap a3 (by simp)) (bp b3 (by simp))]; exact hp2
   -- step 4
   have f4 : lookup fs3 b4 = none := by
     rw [F3 b4 (sd a3 (by simp) b4 (by simp)).2.1 (ss (hlb3.trans hlb4.symm) b34),
@@ -2010,7 +2015,7 @@ theorem move_carries (fs fs' : FS) (t d : Path) (nm : Comp) (ht : t ≠ [])
       F1 b4 (sd t (by simp) b4 (by simp)).2.1 (ss hlb4.symm (Ne.symm b41))]
     exact fr4
   obtain ⟨s4b, s4a, F4⟩ := rename_tol_spec fs3 a4 b4 (sd a4 (by simp) b4 (by simp)).1 (sd a4 (by simp) b4 (by simp)).2.2 f4
-    (par fs3 b4 (by simp) hd3) (c4.imp id (·.2))
+    (par fs3 b4 (by simp) hd3) (para fs3 a4 (by simp) hp3) (c4.imp id (·.2))
   generalize hfs4 : (FS.rename fs3 a4 b4).2 = fs4 at *
   subst h5
   refine ⟨?_, ?_, ?_, ?_, ?_, s1e, ?_⟩
